@@ -25,6 +25,23 @@ enum Kind {
     Get,
     Div,
     Assert,
+    // the failing instruction is the one a control word itself compiles to (a branch on a
+    // non-flag, a counted loop over a non-number, `of` on an empty stack, foreach over a string)
+    If,
+    While,
+    Until,
+    Do,
+    Of,
+    Foreach,
+    // a token that spans several lines: a string literal with line breaks in it, used where a
+    // number is needed (the quoted line is the line the token starts on)
+    MultiLine,
+    // the failing token itself spans lines: a string literal with a line break in it that is not
+    // followed by a separator, an unterminated block comment, a multi-line literal as a `let`
+    // pattern that does not match
+    BadLiteral,
+    OpenComment,
+    LetPattern,
 }
 
 impl Kind {
@@ -34,6 +51,16 @@ impl Kind {
             Kind::Get => "get",
             Kind::Div => "div",
             Kind::Assert => "assert",
+            Kind::If => "if",
+            Kind::While => "while",
+            Kind::Until => "until",
+            Kind::Do => "do",
+            Kind::Of => "of",
+            Kind::Foreach => "foreach",
+            Kind::MultiLine => "multi-line-token",
+            Kind::BadLiteral => "bad-literal",
+            Kind::OpenComment => "open-comment",
+            Kind::LetPattern => "let-pattern",
         }
     }
     fn culprit(self) -> &'static str {
@@ -42,6 +69,16 @@ impl Kind {
             Kind::Get => "get",
             Kind::Div => "/",
             Kind::Assert => "assert",
+            Kind::If => "if",
+            Kind::While => "while",
+            Kind::Until => "until",
+            Kind::Do => "do",
+            Kind::Of => "of",
+            Kind::Foreach => "foreach",
+            Kind::MultiLine => "neg",
+            Kind::BadLiteral => "\"ab\r\ncd\"",
+            Kind::OpenComment => "\\( never\nclosed\r\n 2 drop",
+            Kind::LetPattern => "\"ab\ncd\"",
         }
     }
     fn args(self) -> &'static str {
@@ -50,6 +87,13 @@ impl Kind {
             Kind::Get => "[ ] 0 ",
             Kind::Div => "1 0 ",
             Kind::Assert => "false ",
+            Kind::If | Kind::While | Kind::Until => "1 ",
+            Kind::Do => "\"ten\" 0 ",
+            Kind::Of => "",
+            Kind::Foreach => "\"x\" ",
+            Kind::MultiLine => "\"ab\r\ncd\nef\" ",
+            Kind::BadLiteral | Kind::OpenComment => "",
+            Kind::LetPattern => "\"zz\" let ",
         }
     }
     fn expect_err(self) -> &'static str {
@@ -58,6 +102,11 @@ impl Kind {
             Kind::Get => "OutOfBounds",
             Kind::Div => "DivisionByZero",
             Kind::Assert => "AssertFailed",
+            Kind::If | Kind::While | Kind::Until | Kind::Do | Kind::MultiLine => "TypeErrorMsg",
+            Kind::Of => "StackUnderflow",
+            Kind::Foreach => "TypeNotSupported",
+            Kind::BadLiteral | Kind::OpenComment => "ParseError",
+            Kind::LetPattern => "AssertEqFailed",
         }
     }
 }
@@ -156,6 +205,31 @@ fn templates() -> Vec<Tpl> {
     add("inject-top", "inject", &r, &["1 drop #( \"{I}\" ~) 2 drop"], None, Some("{A}^@"), Inject, 0);
     add("inject-def-called", "inject", &r, &["#( \"{I}\" ~) w1"], None, Some(": w1 {A}^@ ;"), Inject, 0);
     add("main-def-called-from-inject", "inject", &r, &[": w1 {A}^@ ; #( \"w1\" ~)"], None, None, Src(0), 0);
+    // ---- the control word's own instruction fails (its jump is patched later, when the closing word is compiled)
+    add("top", "rt-control", &[Kind::If], &["1 drop {A}^@ 2 drop then 3 drop"], None, None, Src(0), 0);
+    add("top-else", "rt-control", &[Kind::If], &["{A}^@ 2 drop else 3 drop then"], None, None, Src(0), 0);
+    add("def", "rt-control", &[Kind::If], &[": w1 {A}^@ 1 else 2 then ; w1"], None, None, Src(0), 0);
+    add("nested", "rt-control", &[Kind::If], &["true if {A}^@ 1 drop then then"], None, None, Src(0), 0);
+    add("def0-call1", "rt-control", &[Kind::If], &[": w1 {A}^@ 1 drop then ;\n", "\n w1"], None, None, Src(0), 1);
+    add("top", "rt-control", &[Kind::While], &["begin {A}^@ 1 drop repeat 2 drop"], None, None, Src(0), 0);
+    add("def", "rt-control", &[Kind::While], &[": w1 begin {A}^@ repeat ; w1"], None, None, Src(0), 0);
+    add("top", "rt-control", &[Kind::Until], &["begin 1 drop {A}^@ 2 drop"], None, None, Src(0), 0);
+    add("def", "rt-control", &[Kind::Until], &[": w1 begin {A}^@ ; w1"], None, None, Src(0), 0);
+    add("top", "rt-control", &[Kind::Do], &["{A}^@ I drop loop 1 drop"], None, None, Src(0), 0);
+    add("def", "rt-control", &[Kind::Do], &[": w1 {A}^@ loop ; : w2 w1 ; w2"], None, None, Src(0), 0);
+    add("top", "rt-control", &[Kind::Of], &["case ^@ 1 endof 2 endcase"], None, None, Src(0), 0);
+    add("def", "rt-control", &[Kind::Of], &[": w1 case ^@ 1 endof 2 of 3 endof endcase ; w1"], None, None, Src(0), 0);
+    add("top", "rt-control", &[Kind::Foreach], &["{A}^@ I drop loop"], None, None, Src(0), 0);
+    add("def", "rt-control", &[Kind::Foreach], &[": w1 {A}^@ I drop loop ; w1"], None, None, Src(0), 0);
+    // ---- a failing word whose argument literal spans lines (lines are counted through it)
+    add("top", "rt-multiline", &[Kind::MultiLine], &["1 drop {A}^@ 2 drop"], None, None, Src(0), 0);
+    add("def", "rt-multiline", &[Kind::MultiLine], &[": w1 {A}^@ ; w1"], None, None, Src(0), 0);
+    add("top", "multiline-token", &[Kind::BadLiteral], &["1 drop ^@x 2 drop"], None, None, Src(0), 0);
+    add("def", "multiline-token", &[Kind::BadLiteral], &[": w1 ^@x ;"], None, None, Src(0), 0);
+    add("top", "multiline-token", &[Kind::OpenComment], &["1 drop ^@"], None, None, Src(0), 0);
+    add("src1", "multiline-token", &[Kind::OpenComment], &["1 var q", "q drop\n ^@"], None, None, Src(1), 1);
+    add("top", "multiline-token", &[Kind::LetPattern], &["1 drop ^{A}@ 2 drop"], None, None, Src(0), 0);
+    add("def", "multiline-token", &[Kind::LetPattern], &[": w1 ^{A}@ ; w1"], None, None, Src(0), 0);
     v
 }
 
@@ -307,14 +381,35 @@ struct Observed {
     pretty: Option<String>,
 }
 
-fn run_case(base: &Xstate, b: &Built, fail_at: usize, path: &str) -> Result<Observed, String> {
+pub const DRIVES: [&str; 3] = ["eval", "compile+run", "compile+next*"];
+
+fn submit(xs: &mut Xstate, s: &str, drive: usize) -> Xresult {
+    match drive {
+        0 => xs.eval(s),
+        1 => xs.compile(s).and_then(|_| xs.run()),
+        _ => {
+            xs.compile(s)?;
+            let mut n = 0;
+            while xs.is_running() {
+                xs.next()?;
+                n += 1;
+                if n > 100_000 {
+                    return Err(Xerr::InternalError);
+                }
+            }
+            OK
+        }
+    }
+}
+
+fn run_case(base: &Xstate, b: &Built, fail_at: usize, path: &str, drive: usize) -> Result<Observed, String> {
     if let Some(f) = &b.file {
         std::fs::write(path, f).map_err(|e| format!("MACHINERY cannot write {}: {}", path, e))?;
     }
     let mut xs = base.clone();
     let mut results = vec![];
     for (i, s) in b.srcs.iter().enumerate() {
-        let r = guarded(|| xs.eval(s)).map_err(|p| format!("panic in eval #{}: {}", i, p))?;
+        let r = guarded(|| submit(&mut xs, s, drive)).map_err(|p| format!("panic in {} #{}: {}", DRIVES[drive], i, p))?;
         results.push(res_kind(&r));
         if r.is_err() || i == fail_at {
             break;
@@ -421,7 +516,7 @@ pub fn run(cfg: &Cfg) -> i32 {
         machinery_error("C17: scratch directory path needs escaping");
     }
     ev.rule = format!(
-        "{} templates x every layout string of 0..={} atoms over {:?} ({} strings); non-trivial = the culprit token is not at line 0 / column 0 of its source and its column differs from its byte offset in the line or its line is > 0",
+        "{} templates x every layout string of 0..={} atoms over {:?} ({} strings) x 3 ways of submitting the sources (eval, compile+run, compile+next*); plus two failures inside one single-stepped program (5 second culprits x layouts of 0..=3 atoms); non-trivial = the culprit token is not at line 0 / column 0 of its source and its column differs from its byte offset in the line or its line is > 0",
         tpls.len(),
         max_len,
         ATOM_NAMES,
@@ -458,8 +553,9 @@ pub fn run(cfg: &Cfg) -> i32 {
                 let b = build_case(t, layout, &path, base_n);
                 let exp = oracle(&b.ctext, b.coff, t.kind.culprit());
                 let weight = (b.srcs.iter().map(|s| s.len()).sum::<usize>() + b.file.as_ref().map(|f| f.len()).unwrap_or(0)) as u64 + 10_000 * layout.len() as u64;
+                for drive in 0..DRIVES.len() {
                 n_cases += 1;
-                let obs = match run_case(&base, &b, t.fail_at, &path) {
+                let obs = match run_case(&base, &b, t.fail_at, &path, drive) {
                     Ok(o) => o,
                     Err(p) if p.starts_with("MACHINERY") => machinery_error(&p),
                     Err(p) => {
@@ -470,7 +566,7 @@ pub fn run(cfg: &Cfg) -> i32 {
                 n_evals += obs.results.len() as u64;
                 // the template must fail where and how it was designed to
                 let ok_prefix = obs.results.len() == t.fail_at + 1 && obs.results[..t.fail_at].iter().all(|r| r == "Ok");
-                if !ok_prefix || obs.results[t.fail_at] != t.kind.expect_err() {
+                if !ok_prefix || !obs.results[t.fail_at].starts_with(t.kind.expect_err()) {
                     bump(&mut local, "unexpected-result");
                     let mut u = unexpected.lock().unwrap();
                     if u.len() < 5 {
@@ -504,7 +600,8 @@ pub fn run(cfg: &Cfg) -> i32 {
                 let line_end = b.ctext[b.coff..].find(|c| c == '\n' || c == '\r').map(|i| b.coff + i).unwrap_or(b.ctext.len());
                 let fam = t.family;
                 let fail = |key: String, what: String| {
-                    rep.report_w(&key, weight, || case_json(t, &b, layout, &path, &exp, Some(&obs), &what));
+                    let (key, what) = if drive == 0 { (key, what) } else { (format!("{}|{}", key, DRIVES[drive]), format!("{} (sources submitted as {})", what, DRIVES[drive])) };
+                    rep.report_w(&key, weight + drive as u64, || case_json(t, &b, layout, &path, &exp, Some(&obs), &what));
                 };
                 match &obs.loc {
                     None => fail(format!("none:{}/{}", fam, t.name), "no location reported for a failing source".into()),
@@ -537,6 +634,7 @@ pub fn run(cfg: &Cfg) -> i32 {
                             }
                         }
                     }
+                }
                 }
             }
         }
@@ -587,6 +685,77 @@ pub fn run(cfg: &Cfg) -> i32 {
                     ])
                 });
             }
+        }
+    }
+
+    // ---- two failures while one compiled program is single-stepped: the first word underflows, the host
+    //      repairs the stack (push_data) and keeps stepping, a later word fails: every error is located at
+    //      its own token. Every layout of 0..=3 atoms between the two.
+    {
+        let mut base = boot();
+        base.eval(": é ;").expect("define é");
+        let base_n: usize = dump_get(&base.verif_dump(), "sources_len").parse().unwrap_or(0);
+        let short: Vec<&(String, u8)> = lays.iter().take(1 + 6 + 36 + 216).collect(); // layouts are listed shortest first
+        let second: [(Kind, &str); 5] = [(Kind::Get, " 2 drop"), (Kind::Div, ""), (Kind::Assert, "\n3 drop"), (Kind::If, " 2 drop then"), (Kind::Until, "")];
+        let mut n = 0u64;
+        for (kind, tail) in second {
+            for (layout, _) in short.iter().map(|x| (&x.0, x.1)) {
+                let head = if kind == Kind::Until { "drop begin " } else { "drop " };
+                let text = format!("{}{}{}{}{}", head, layout, kind.args(), kind.culprit(), tail);
+                let off2 = head.len() + layout.len() + kind.args().len();
+                let mut xs = base.clone();
+                n += 1;
+                let r = guarded(|| -> Result<(Xresult, Option<(usize, usize)>, Xresult, Option<(String, usize, usize, String, (usize, usize))>), Xerr> {
+                    xs.compile(&text)?;
+                    let mut step = |xs: &mut Xstate| -> Xresult {
+                        let mut k = 0;
+                        while xs.is_running() {
+                            xs.next()?;
+                            k += 1;
+                            if k > 10_000 {
+                                return Err(Xerr::InternalError);
+                            }
+                        }
+                        OK
+                    };
+                    let r1 = step(&mut xs);
+                    let l1 = xs.last_err_location().map(|l| (l.token.range().start, l.token.range().end));
+                    xs.push_data(Cell::Int(1))?;
+                    let r2 = step(&mut xs);
+                    let l2 = xs.last_err_location().map(|l| (l.filename.to_string(), l.line, l.col, l.whole_line.as_str().to_string(), (l.token.range().start, l.token.range().end)));
+                    Ok((r1, l1, r2, l2))
+                });
+                let (r1, l1, r2, l2) = match r {
+                    Ok(Ok(x)) => x,
+                    other => {
+                        rep.report_w("panic:two-failures-stepping", text.len() as u64, || jo(vec![("source", js(text.clone())), ("problem", js(format!("{:?}", other.map(|r| r.map(|_| ()).map_err(|e| err_kind(&e))))))]));
+                        continue;
+                    }
+                };
+                if res_kind(&r1) != "StackUnderflow" || l1 != Some((0, 4)) || !res_kind(&r2).starts_with(kind.expect_err()) {
+                    cover.merge(&BTreeMap::from([("two-failures:not-as-designed(skipped)".to_string(), 1u64)]));
+                    continue;
+                }
+                cover.merge(&BTreeMap::from([("two-failures:judged".to_string(), 1u64)]));
+                let exp = oracle(&text, off2, kind.culprit());
+                let want = (format!("<buffer#{}>", base_n), exp.line, exp.col, exp.whole_line.clone(), exp.range);
+                if l2.as_ref() != Some(&want) {
+                    rep.report_w(&format!("second-failure-while-stepping:{}", kind.name()), (layout.len() * 1000 + text.len()) as u64, || {
+                        jo(vec![
+                            ("kind", js("c17-two-failures")),
+                            ("boot", js(": é ;")),
+                            ("calls", J::A(vec![js(format!("compile {:?}", text)), js("next() until it fails (stack underflow at `drop`)"), js("push_data(Int(1))"), js("next() until it fails again")])),
+                            ("expected_location_(source, line, col, quoted line, token range)", js(format!("{:?}", want))),
+                            ("observed_location", js(format!("{:?}", l2))),
+                        ])
+                    });
+                }
+            }
+        }
+        cases.fetch_add(n, Ordering::Relaxed);
+        evals.fetch_add(n, Ordering::Relaxed);
+        if cover.get("two-failures:judged") == 0 {
+            vacuous("vacuous: C17 no two-failure stepping case behaved as designed");
         }
     }
 
